@@ -24,6 +24,7 @@ type hBundle struct {
 	Prev   int  `json:"prev"`   // received bundles: index of the previous node (-1 = no previous-node block)
 	TsKind int  `json:"tskind"` // 0 = now, 1 = the same creation time as bundle 0, 2 = zero creation time + age block
 	Copies int  `json:"copies,omitempty"`
+	Frag   bool `json:"frag,omitempty"`    // the bundle is a fragment (offset 100 of 5000 bytes): its ID carries offset and length, the store files it under the scrubbed ID
 	OwnSrc bool `json:"own_src,omitempty"` // received bundles: the source is this node (a bundle of ours that a relay hands back)
 }
 
@@ -135,6 +136,10 @@ func (w *hWorld) build(i int) bpv7.Bundle {
 	if !pl.Local {
 		// received bundles are distinguished by their sequence number as well
 		b.PrimaryBlock.CreationTimestamp[1] = uint64(i)
+	}
+	if pl.Frag {
+		b.PrimaryBlock.BundleControlFlags |= bpv7.IsFragment
+		b.PrimaryBlock.FragmentOffset, b.PrimaryBlock.TotalDataLength = 100, 5000
 	}
 	return b
 }
@@ -297,6 +302,7 @@ func genHistory(algos []string, maxPeers int, ops []string, maxOps int) *rapid.G
 				Dest:   rapid.IntRange(0, cs.NPeers).Draw(t, "dest"),
 				Prev:   rapid.IntRange(-1, cs.NPeers-1).Draw(t, "prev"),
 				TsKind: rapid.SampledFrom([]int{0, 0, 1, 2}).Draw(t, "tskind"),
+				Frag:   rapid.IntRange(0, 4).Draw(t, "frag") == 0,
 			})
 		}
 		cs.Ops = rapid.SliceOfN(rapid.Custom(func(t *rapid.T) hOp {
